@@ -390,6 +390,13 @@ func runC07(c *an.Ctx) {
 			}
 			guards := width.Union(counter)
 			perIter := len(guards) > 0 && an.GuardedBy(fn, nil, call, guards) && !an.Reaches(fn, call, call, guards, nil)
+			if !perIter && okDR {
+				// rotated counted loops ("for range depthRepeat", do-while): bounded by construction
+				var kDR int64
+				if _, err := fmt.Sscan(roles.depthRepeat, &kDR); err == nil {
+					perIter = an.XBCounterBelow(fn, call, kDR)
+				}
+			}
 			c.Check(perIter, "O3", "R-DOM", an.FuncName(fn), "loop-AddChild<=width-guard", call.Pos(),
 				"every iteration that adds a child first passes NumChildren() < Maxlinks() on that node (or counter < depthRepeat)",
 				"a child is added inside a loop without a per-iteration guard NumChildren() < Maxlinks() on the same node (or counter < depthRepeat): a node can get more children than the DAG width allows")
@@ -1151,7 +1158,23 @@ func c07ResolveRoles(c *an.Ctx) *c07Roles {
 	}
 	for _, fn := range tfns {
 		sig := fn.Signature
-		if fn.Parent() != nil || sig.Recv() != nil || sig.Params().Len() != 2 || sig.Results().Len() != 2 {
+		if fn.Parent() != nil || sig.Recv() != nil || sig.Params().Len() != 2 {
+			continue
+		}
+		if sig.Results().Len() == 1 {
+			// the (depth, repeat) pair carried in a small struct
+			if st, ok := sig.Results().At(0).Type().Underlying().(*types.Struct); ok && st.NumFields() == 2 {
+				b0, ok0 := st.Field(0).Type().Underlying().(*types.Basic)
+				b1, ok1 := st.Field(1).Type().Underlying().(*types.Basic)
+				if ok0 && ok1 && b0.Kind() == types.Int && b1.Kind() == types.Int && an.TypeIs(sig.Params().At(0).Type(), c07H, "FSNodeOverDag") {
+					if b, ok := sig.Params().At(1).Type().Underlying().(*types.Basic); ok && b.Kind() == types.Int {
+						r.depthInfo = fn
+					}
+				}
+			}
+			continue
+		}
+		if sig.Results().Len() != 2 {
 			continue
 		}
 		isInt := func(t types.Type) bool {
@@ -1189,6 +1212,7 @@ func c07ResolveRoles(c *an.Ctx) *c07Roles {
 					if step {
 						vals[fmt.Sprint(k)] = true
 					}
+					_ = e
 				}
 			}
 		}
